@@ -53,6 +53,7 @@ def run(ctx):
         if e["outcome"] == "result" and e["attrs"]:
             nontrivial.add(e["hex"])
     ctx.log("%d inputs (%s), %d results, %d unsafe" % (st["inputs"], st["kinds"], st["results"], st["bad"]))
+    selftest = mc.safety_selftest(ctx, events) if thorough and st["bad"] == 0 else None
     mid = events[len(events) // 2]
     ctx.cover(
         traces_validated_against_impl=len(events),
@@ -64,4 +65,6 @@ def run(ctx):
         exhaustive=True, nonvacuity=nonvac,
         samples=[{"input": bytes.fromhex(mid["hex"]).decode("utf-8", "backslashreplace"), "kind": mid["kind"], "outcome": mid["outcome"]}],
     )
+    if selftest is not None:
+        ctx.cover(binding_selftest=selftest)
     ctx.assumptions += mc.ASSUMPTIONS_C15
